@@ -23,7 +23,7 @@ LABEL_FLOORS = {'order2': 0.3, 'order1': 0.3, 'colour': 0.2}
 
 def plan(tier):
     if tier == 'quick':
-        return [{'n': 120} for _ in range(8)]
+        return [{'n': 120} for _ in range(16)]
     units = [{'n': 200, 'order': 1, 'biort': b, 'colour': c} for b in scatu.BIORTS1 for c in (False, True)]
     units += [{'n': 120, 'order': 2, 'biort': b, 'qshift': q, 'colour': c}
               for b, q in [(b, q) for b in ['near_sym_a', 'near_sym_b', 'antonini', 'legall'] for q in scatu.QSHIFTS2] +
